@@ -34,7 +34,7 @@ def histories():
         st.tuples(st.just("add"), st.integers(0, 3), st.sampled_from(KINDS)).map(list),
         st.tuples(st.just("remove"), st.integers(0, 3)).map(list),
         st.tuples(st.just("readd"), st.integers(0, 3), st.sampled_from(["same", "new"])).map(list),
-        st.just(["extract"]), st.just(["extract"]),
+        st.just(["extract"]), st.just(["extract"]), st.just(["extract", "outermost"]), st.just(["extract", "since"]),
         # [extract, nested]: a hook inserts a glue-bearing module mid-extraction and starts a nested extract_child()
         st.tuples(st.just("nested"), st.integers(0, 3)).map(list))
     return st.lists(op, min_size=3, max_size=14).map(lambda ops: {"ops": _expand(ops) + [["extract"]]})
